@@ -171,11 +171,23 @@ def small_cases(count, seed, K):
         ids = list(IDS62) + ["-"]
         return _build(rng, K, ids, lambda ch: [(1, "")], atoms_per_res=(1, 1))
 
+    @g("subset-fits")
+    def _():
+        # a table that does NOT fit (multi-character chain ids, a big number) of which only the rows of the
+        # one-character chains are kept AFTER parsing: the selection fits, whatever the parsed columns remember
+        keep = rng.sample(list("ABC"), rng.randint(1, 2))
+        chains = keep + rng.sample(long_ids, rng.randint(1, 2))
+        rng.shuffle(chains)
+        return _build(rng, K, chains, lambda ch: few(rng) if ch in keep else [(rng.choice([3, 12345]), "")])
+
     cases = []
     k = 0
     while len(cases) < count:
         label, fmt, fn = gens[k % len(gens)]
-        cases.append({"id": f"f{seed}-{k}-{label}", "kind": "small", "gen": label, "fmt": fmt, "atoms": fn()})
+        case = {"id": f"f{seed}-{k}-{label}", "kind": "small", "gen": label, "fmt": fmt, "atoms": fn()}
+        if label == "subset-fits":
+            case["keep"] = sorted({a["chain"] for a in case["atoms"] if len(a["chain"]) == 1})
+        cases.append(case)
         k += 1
     return cases
 
@@ -194,8 +206,14 @@ def big_cases(tier, seed, K):
     """Tables too big to log row by row."""
     specs = [("res-9999-in-chain", dict(nres=9999, chain="AA", start=10001)),
              ("res-10000-in-chain", dict(nres=10000, chain="AA", start=1))]
+    # interleaved chains close to the serial limit: atoms + chains <= 99999 < atoms + chain runs (every chain
+    # switch costs a TER serial), so the renumbering itself has to notice that the serials run out
+    specs += [("atoms-99984-interleaved", dict(nres=1, chain="AA", start=1, atoms=5, blocks=["AA", "BB", "CC", "DD"] * 5,
+                                              per_block=999, tail=84))]
     if tier == "thorough":
-        specs += [("atoms-100000", dict(nres=5000, chain="AA", start=1, atoms=20)),
+        specs += [("atoms-99990-interleaved-fits", dict(nres=1, chain="AA", start=1, atoms=5, blocks=["AA", "BB"] * 2,
+                                                        per_block=4999, tail=10)),
+                  ("atoms-100000", dict(nres=5000, chain="AA", start=1, atoms=20)),
                   ("atoms-99998-one-chain", dict(nres=5000, chain="A", start=1, atoms=20, drop=2, serial0=100001)),
                   ("res-9999-two-chains", dict(nres=9999, chain="AA", start=1, second="BBB"))]
     cases = [{"id": f"fb{seed}-{label}", "kind": "big", "gen": label, "fmt": "cif", "spec": s} for label, s in specs]
@@ -219,6 +237,21 @@ def _big_atoms(spec):
     serial = spec.get("serial0", 1)
     names = ["P", "OP1", "OP2", "O5'", "C5'", "C4'", "O4'", "C3'", "O3'", "C2'", "O2'", "C1'", "N9", "C8", "N7", "C5",
              "C6", "N6", "N1", "C2"]
+    if spec.get("blocks"):
+        # blocks of per_block residues x atoms atoms, chains taken in turn; `tail` extra atoms in the last residue
+        nxt = {}
+        for bi, ch in enumerate(spec["blocks"]):
+            for r in range(spec["per_block"]):
+                num = nxt.get(ch, spec["start"])
+                nxt[ch] = num + 1
+                extra = spec.get("tail", 0) if (bi == len(spec["blocks"]) - 1 and r == spec["per_block"] - 1) else 0
+                for k in range(spec["atoms"] + extra):
+                    nm = names[k % len(names)]
+                    atoms.append({"rec": "ATOM", "name": nm, "elem": nm[0], "alt": "", "resn": "A", "chain": ch,
+                                  "resseq": num, "icode": "", "x": rng.randint(-99999, 99999), "y": r, "z": k,
+                                  "occ": 100, "b": 0, "charge": 0, "model": 1, "serial": serial})
+                    serial += 1
+        return atoms
     for ch in [spec["chain"]] + ([spec["second"]] if spec.get("second") else []):
         for r in range(spec["nres"]):
             for k in range(spec.get("atoms", 1)):
@@ -310,6 +343,14 @@ def record(case):
             df = p2.parse_pdb_atoms(pt.emit_pdb(atoms, K, rng))
         else:
             df = p2.parse_cif_atoms(pt.emit_cif(atoms, rng))
+        if case.get("keep"):
+            # a row selection made after parsing (the frame keeps whatever the parser attached to its columns)
+            col = "chainID" if case["fmt"] == "pdb" else "auth_asym_id"
+            attrs = dict(df.attrs)
+            df = df[df[col].isin(case["keep"])]
+            df.attrs.update(attrs)
+            atoms = [a for a in atoms if a["chain"] in case["keep"]]     # c["atoms"] stays the full table (replay)
+            c["keep"] = case["keep"]
         inp = pt.project(df)["rows"]
         if len(inp) != len(atoms):
             raise lib.MachineryError(f"{case['id']}: reader returned {len(inp)} rows for {len(atoms)} atoms")
